@@ -30,7 +30,7 @@ def policies(r, driver, root_ph="@ROOT@"):
     """One random I/O policy: (name, rules)."""
     U = root_ph
     kind = r.choice(["cfr-short", "cfr-short", "cfr-short-kth", "cfr-refuse", "cfr-refuse-kth", "uspace-short", "uspace-short",
-                     "ficlone", "fiemap", "eintr", "mix"])
+                     "ficlone", "fiemap", "eintr", "mix", "mix", "short-then-refuse"])
     lp = r.choice(LENPOL)
     rules = []
     if kind == "cfr-short":
@@ -48,6 +48,9 @@ def policies(r, driver, root_ph="@ROOT@"):
         calls = ["read", "write"] if driver == "parfile" else ["pread64", "pwrite64"]
         for i, s in enumerate(r.sample(calls, r.randint(1, 2))):
             rules.append({"id": "s%d" % i, "sys": s, "under": U, "action": "short", "len": r.choice(LENPOL)})
+    elif kind == "short-then-refuse":
+        rules.append({"id": "r", "sys": "copy_file_range", "under": U, "action": "fault", "errno": r.choice([ENOSYS, EXDEV, EPERM]), "from": 2})
+        rules.append({"id": "s", "sys": "copy_file_range", "under": U, "action": "short", "len": r.choice(["half", "rand", "cap:4096", "minus1"])})
     elif kind == "ficlone":
         rules.append({"id": "s", "sys": "ioctl", "iocmd": core.FICLONE, "under": U, "action": "fault",
                       "errno": r.choice([EOPNOTSUPP, EINVAL, EXDEV])})
@@ -57,8 +60,9 @@ def policies(r, driver, root_ph="@ROOT@"):
         rules.append({"id": "r", "sys": "copy_file_range", "under": U, "action": "fault", "errno": ENOSYS})
         rules.append({"id": "s", "sys": "read" if driver == "parfile" else "pread64", "under": U, "action": "fault", "errno": EINTR, "nth": r.randint(1, 3)})
     else:
+        # the refusal rule comes first: calls before `from` are shortened, later ones refused (a refusal part-way through a block)
+        rules.append({"id": "r", "sys": "copy_file_range", "under": U, "action": "fault", "errno": r.choice([ENOSYS, EXDEV, EPERM]), "from": r.randint(2, 4)})
         rules.append({"id": "s", "sys": "copy_file_range", "under": U, "action": "short", "len": lp})
-        rules.append({"id": "r", "sys": "copy_file_range", "under": U, "action": "fault", "errno": ENOSYS, "from": r.randint(2, 6)})
         rules.append({"id": "s2", "sys": "read" if driver == "parfile" else "pread64", "under": U, "action": "short", "len": r.choice(LENPOL)})
         rules.append({"id": "s3", "sys": "ioctl", "iocmd": core.FIEMAP, "under": U, "action": "fault", "errno": EOPNOTSUPP})
     name = kind + (":" + lp if "short" in kind or kind == "mix" else "")
